@@ -94,10 +94,33 @@ class SymNP(object):
             return a
         return _np.array(x, dtype=dtype, **kw)
 
+    def asarray(self, x, dtype=None, **kw):
+        # numpy does not copy when the input already is an array of the
+        # requested type; object arrays stand for float64 arrays here
+        if isinstance(x, _np.ndarray) and (
+                (x.dtype == object and (dtype is None or dtype is float or dtype is sfloat
+                                        or dtype is _np.float64 or dtype is object))
+                or (dtype is None)):
+            return x
+        return self.array(x, dtype=dtype, **kw)
+
     def sqrt(self, x):
         if isinstance(x, _e.Sym):
             return x.sqrt()
         return _np.sqrt(x)
+
+    def isclose(self, a, b, rtol=1e-05, atol=1e-08, equal_nan=False):
+        """numpy's documented contract |a-b| <= atol + rtol*|b| in exact reals"""
+        aa = _np.asarray(a, dtype=object)
+        bb = _np.asarray(b, dtype=object)
+        aa, bb = _np.broadcast_arrays(aa, bb)
+        out = _np.empty(aa.shape, dtype=bool)
+        for idx in _np.ndindex(aa.shape):
+            out[idx] = bool(abs(aa[idx] - bb[idx]) <= atol + rtol * abs(bb[idx]))
+        return out if out.shape else bool(out)
+
+    def allclose(self, a, b, rtol=1e-05, atol=1e-08, equal_nan=False):
+        return bool(_np.all(self.isclose(a, b, rtol, atol)))
 
 
 SNP = SymNP()
